@@ -30,6 +30,7 @@ RULE = (
     ' Round 5: cases also run with the library logging at DEBUG, with set-up in a foreign context/thread, and with the same line spelled as MQTT topic levels + payload through a real MQTTClient on a fake broker (same reference verdict).'
     ' Round 6: the MQTT spelling uses 8 topic prefixes (incl. the README default; digits that also occur in ids); a well-formed line rejected on that path is reported.'
     ' Round 7: format-string metacharacters among the odd spellings; id-request warm-ups enumerated.'
+    ' Round 12: `presend` (the controller sent the same message just before the line arrives: it is still accepted or rejected, never swallowed).'
     ' Round 8: `stream` path (the line as bytes through a real StreamReader); MQTT path preceded by another message on the same topic.'
     ' Round 9: BOM/zero-width/NUL prefixes and canonically decomposable characters on every path.'
     ' Round 10: every odd spelling of a field is enumerated with every command (not sampled).'
@@ -114,6 +115,7 @@ def strategy(tier: str):
             "mqtt_prefix": st.sampled_from(MQTT_PREFIXES),
             "mqtt_repeat": st.booleans(),
             "stream": st.sampled_from((False, False, True)),  # the same line as bytes on a serial/TCP stream
+            "presend": st.sampled_from((False, False, False, True)),
         }
     )
 
@@ -149,6 +151,10 @@ def enumerate_cases(tier: str):
                 yield {"version": version, "line": head + inner + "\n", "stream": True}
                 yield {"version": version, "line": head + inner + "\n", "mqtt": True, "mqtt_repeat": True}
                 yield {"version": version, "line": head + inner + "\n", "mqtt": True, "mqtt_repeat": True, "mqtt_prefix": "mygateway1-out"}
+    # well-formed lines that the controller itself sent just before (the node echoes a command that carried the ack flag)
+    for version in ("1.4", "2.0", "2.2"):
+        for text in ("4;1;1;1;0;9", "4;1;1;0;0;9", "4;1;2;1;0;", "4;255;3;1;18;", "4;255;3;0;13;", "4;255;3;1;6;M", "0;255;3;1;2;", "4;255;4;1;0;00", "4;1;1;1;2;on;off"):
+            yield {"version": version, "line": text + "\n", "presend": True}
     # one ill-formed line of every class arriving complete on a byte stream: rejected as an invalid message, like anywhere else
     for version in ("1.4", "2.2"):
         for text in ("", "\r", " ", "\t", "  \r", ";", ";;;;;", "1", "1;2", "1;2;3;0;5", "1;2;1;0;", "256;1;1;0;0;x", "1;256;1;0;0;x", "1;1;5;0;0;x", "1;1;1;2;0;x", "a;1;1;0;0;x", "1;1;1;0;x;y",
@@ -354,6 +360,22 @@ def _run_case(case: dict) -> Outcome:
                     return fail("mqtt-rejects-wellformed", f"topic levels + payload spelling {line!r} (prefix {case.get('mqtt_prefix')!r}) rejected: {value!r}", classes=classes)
             if verdict == "accept" and status == "dropped":
                 return fail("mqtt-dropped-wellformed", f"topic levels + payload spelling {line!r}: nothing was received", classes=classes)
+    if case.get("presend") and verdict == "accept" and None not in ref["values"]:
+        # the controller itself sent this very message a moment ago (with or without the ack flag); now the line arrives
+        async def after_send():
+            gateway, transport = env.make_gateway(version, ctx=ctx)
+            fields = ref["values"] + [ref["rest"].rstrip()]
+            env.install_registry(gateway.nodes, {str(fields[0]): {"children": {str(fields[1]): {"child_type": 0}}}})
+            await env.send(gateway, env.mk_message(fields), False)
+            first = await env.rx(gateway, line)
+            return first, await env.rx(gateway, line)
+
+        for status, value in env.run(after_send()):
+            classes += ("after-own-send",)
+            if status == "drained":
+                return fail("swallowed-after-own-send", f"{line!r} under {version}, received after the controller sent the same message: neither accepted nor rejected", classes=classes)
+            if status == "leak":
+                return fail(f"listen-leak:{env.exc_sig(value)}", f"{line!r} received after the controller sent the same message: {value!r}", classes=classes)
     if case.get("stream"):
         got = _via_stream(version, line, ctx)
         if got is not None:
